@@ -1,5 +1,6 @@
 """C11 Connection layer (p2p.Conn) is a faithful, ordered, typed byte stream."""
 import hashlib
+import json
 import os
 import re
 import sys
@@ -27,6 +28,11 @@ THEOREMS = [
     "Mpc.C11_conn_fault_reported",
     "Mpc.C11_conn_fault_free_ok",
     "Mpc.C11_old_writer_gap_witness",
+    "Mpc.C11_conn_directions_independent",
+    "Mpc.C11_conn_duplex_faults",
+    "Mpc.C11_conn_duplex_faults_roundtrip",
+    "Mpc.C11_closing_writer_couples_directions_witness",
+    "Mpc.C11_sess_sides_are_local_runs",
     "Mpc.C11_be_roundtrip",
 ]
 
@@ -50,6 +56,42 @@ def distinct_ops(ctx, ops):
         parts = line.split()
         if len(parts) == 5 and parts[4] != "-" and ";" in parts[4] and re.search(r"[bhwdslzZ]", parts[4]):
             ctx.distinct.add(hashlib.sha1(line.encode()).digest())
+        # duplex / fault sessions: at least two steps of which one sends a value
+        if len(parts) == 6 and parts[1] == "dx" and ";" in parts[5] and re.search(r"[AB]>[bhwdslzZ]", parts[5]):
+            ctx.distinct.add(hashlib.sha1(line.encode()).digest())
+
+
+def replay_exact(ctx):
+    """`bin/check C11 --replay F`: when F holds one duplex / fault session (failure.replay = {mode: dx, op: <the op
+    line>}), run exactly that script - same transport parameters, same steps in the same order - on the real p2p.Conn
+    (harness mode dxreplay) and return the reproduced failure, else None."""
+    if "--replay" not in sys.argv:
+        return None
+    try:
+        rp = sys.argv[sys.argv.index("--replay") + 1]
+        rp = rp if os.path.isabs(rp) else os.path.join(vlib.VERIF, rp)
+        f = json.load(open(rp)).get("failure") or {}
+    except Exception:
+        return None
+    if (f.get("replay") or {}).get("mode") != "dx":
+        return None
+    rc, log = vlib.sh([ctx.hx, "dxreplay", rp], env=vlib.GOENV, timeout=600)
+    print("replayed session of %s (%s):\n%s" % (os.path.basename(rp), f.get("sig"), vlib.indent(log[-3000:])))
+    if rc == 1:
+        g = dict(f)
+        g["found_by"] = "exact replay of " + os.path.basename(rp)
+        return g
+    return None
+
+
+def run_dx(ctx, n, seed, tag="", prefix=""):
+    ops, out, meta = ctx.run_hx("dx", n, seed=seed, tag=tag)
+    ctx.absorb_meta(meta, prefix=prefix)
+    ctx.correspond("duplex / fault sessions (both halves of two Conns over a buffering full-duplex transport; sends, "
+                   "flushes, receives and closes of both sides in any order; Writes towards a closed peer fail at once "
+                   "or after 1..3 accepted ones): what every call returned, Stats, Write calls, bytes accepted per "
+                   "direction, transport closes, Read pattern (seed %d%s)" % (seed, tag), ops, out)
+    distinct_ops(ctx, ops)
 
 
 def run(ctx):
@@ -64,6 +106,15 @@ def run(ctx):
     n = 400 if ctx.tier == "quick" else 3000
     seeds = [ctx.seed] if ctx.tier == "quick" else [ctx.seed, ctx.seed + 1000, ctx.seed + 2000]
     if ctx.build_hx():
+        # ---- --replay of one recorded duplex / fault session: exactly that session; a reproduced failure decides the run
+        g = replay_exact(ctx)
+        if g:
+            ctx.fails.append(g)
+            ctx.coverage["rule"] = "replay of one recorded duplex / fault session (the full check was not run)"
+            return ctx.finish("Replay: the recorded session (transport parameters and the exact step sequence of both "
+                              "endpoints) was re-run on the real p2p.Conn; the oracle fails again.")
+        if "--replay" in sys.argv:
+            print("no single recorded session to replay (or it no longer fails); running the full check")
         ops, out, meta = ctx.run_hx("sys", 0, seed=ctx.seed)
         ctx.absorb_meta(meta, prefix="sys_")
         # ---- structural facts the model assumes, taken from the COMPILED package (a fresh Conn and reflection in
@@ -91,9 +142,16 @@ def run(ctx):
             ctx.correspond("random duplex sessions: Write chunk lengths, wire digest, Stats, received values, "
                            "Read pattern, unread rest (seed %d)" % s, ops, out)
             distinct_ops(ctx, ops)
+        # both halves at once: duplex sessions with faults on either direction
+        nd = 300 if ctx.tier == "quick" else 3000
+        for s in seeds:
+            run_dx(ctx, nd, s)
         if ctx.broken and not ctx.fails:
             # widened search for a concrete failing input (oracle only)
             for s in range(ctx.seed + 7000, ctx.seed + 7004):
+                run_dx(ctx, 1500, s, tag="-widen", prefix="widen_")
+                if ctx.fails:
+                    break
                 ops, out, meta = ctx.run_hx("conn", 1200, seed=s, tag="-widen")
                 ctx.absorb_meta(meta, prefix="widen_")
                 if ctx.fails:
@@ -106,7 +164,10 @@ def run(ctx):
                 "fault_hit_sticky", "fault_hit_transient", "fault_reported_by_op", "fault_reported_by_close_only",
                 "fault_short_0", "fault_short_partial", "fault_error_after_full_write", "fault_not_reached",
                 "sys_cases_eof", "sys_eof_mid_b", "sys_eof_mid_h", "sys_eof_mid_w", "sys_eof_mid_l", "sys_eof_mid_d",
-                "sys_eof_mid_s", "sys_eof_mid_z"]
+                "sys_eof_mid_s", "sys_eof_mid_z",
+                "cases_dx_sys", "cases_dx_rand", "dx_write_failed", "dx_write_accepted_after_peer_close",
+                "dx_send_error", "dx_close_error", "dx_recv_value_after_send_fault", "dx_recv_expect_value",
+                "dx_recv_expect_eof", "dx_recv_expect_wb"]
         ring = sorted(int(k.rsplit("_", 1)[1]) for k in c if k.startswith("ring_distinct_buffers_"))
         ctx.fact("largest number of distinct write buffers seen by the transport = model numBuffers",
                  ring[-1] if ring else None, lean_const(model, "numBuffers"))
@@ -124,7 +185,13 @@ def run(ctx):
         "length prefix, body cuts at 1 byte / 64 KiB / 1 MiB / last byte); fault sessions: the N-th transport Write "
         "(N = every chunk boundary of a fixed script and 0..7 on random scripts) fails after 0 / 1 / few / 65535 / "
         "65536 / all bytes, sticky or transient, with the failing Write held until the next chunk is queued so that "
-        "the asynchronous error report is reproducible. "
+        "the asynchronous error report is reproducible; duplex / fault sessions: two Conns over a full-duplex "
+        "buffering transport (two independent byte queues, data written before a close stays readable, Writes towards "
+        "a closed endpoint fail at once or after 1..3 accepted-and-discarded ones), one script of steps of both "
+        "sides in any order (typed sends of every kind incl. payloads above 64 KiB while no Write can fail, Flush, "
+        "NeedSpace, typed receives of what has arrived, end-of-stream and would-block probes, Close at any point): "
+        "all interleavings of [peer sends, peer closes] with [local sends + flushes, local receives] x 3 send "
+        "variants x grace 0/1/2 x both roles, plus random interleavings. "
         "distinct = distinct op lines with >= 2 sender operations including a value")
     ctx.assumptions += [
         "Go channels are FIFO; conn.Write is modelled as reading the queued buffer atomically (the physical-ring model "
@@ -139,7 +206,13 @@ def run(ctx):
         "quantified over, so a stale read is a later schedule); the caller stops at its first error and calls Close",
         "C11_conn_fault_prefix holds for every fault pattern since /repo f07ee15 (writer goroutine stops writing after a "
         "failed Write); the behaviour before the fix is kept as C11_old_writer_gap_witness on FSender.writerStepOld",
-        "the send half and the receive half of a Conn share no state (Stats counters are separate atomics)",
+        "the send half and the receive half of a Conn share no state except the transport c.conn itself (Stats "
+        "counters are separate atomics); Local (Model/ConnDuplex.lean) models that shared endpoint explicitly and "
+        "C11_conn_directions_independent / the duplex-fault correspondence check that no send-side event reaches it",
+        "duplex / fault sessions are sequential scripts: between two steps every writer goroutine has finished what was "
+        "queued (the harness waits until it is parked), and a Write is held until the Flush that queued it has "
+        "returned; operations that flush more than once are only generated while no Write can fail; after a failed "
+        "typed receive no further receive of that side is modelled",
     ]
     return ctx.finish(
         "Theorems (Props/C11.lean) over the executable model Model/Conn.lean: for every operation list, every writer "
@@ -151,10 +224,18 @@ def run(ctx):
         "from the transport; composition (round trip, both directions); a stream that ends inside a value gives the "
         "complete values and then the end-of-stream error, never a partial value; with failing / short transport "
         "Writes (any fault pattern, transient or permanent) the wire stays a prefix of the sent stream, success of all operations "
-        "and Close implies full delivery on every transport, an error once reported stays reported. Tie: the same Lean definitions are executed "
+        "and Close implies full delivery on every transport, an error once reported stays reported; a whole endpoint (both halves + the transport "
+        "endpoint they share) in sessions where local sends under any faults, writer iterations, receives, the peer's "
+        "bytes in any chunking and the peer's close interleave in any order: the receive direction (values, errors, "
+        "Stats.Recvd, window) is independent of the send direction, every value the transport accepted from the peer is "
+        "received in order followed by the end of the stream, with the witness that a writer closing the transport on a "
+        "Write error breaks exactly this; the two-endpoint session model run by the driver is two such sessions. Tie: the same Lean definitions are executed "
         "by drv_c11 on the op lines the harness ran on the real p2p.Conn (harness transport with seeded "
         "fragmentation, and the real p2p.Pipe) and every observable is compared. Oracle on the real code: received "
         "= sent, wire bytes = reference encoding, Stats = bytes moved, rest = encoding of unreceived values, no "
         "buffer mutation during Write, no error/panic/hang (progress-based watchdog); under faults: wire is a prefix "
         "of the reference encoding, a failed Write is reported by an operation or by Close, success means full "
-        "delivery; EOF inside a value gives io.EOF after exactly the complete values.")
+        "delivery; EOF inside a value gives io.EOF after exactly the complete values; in duplex / fault sessions a value the "
+        "transport accepted from the peer is received unchanged and in order whatever happened to the local sends, then "
+        "io.EOF after the peer's close, accepted bytes are a prefix of the sent stream (all of it when everything "
+        "returned nil), a failed Write is reported, Recvd = bytes read.")
